@@ -314,3 +314,6 @@ def _merge_fork_lists():
 
 
 _merge_fork_lists()
+
+from contracts import C16b as _c16b  # the second part (shared-array placement, remaining emitters, code generation, printer) lives in contracts/C16b.py
+_c16b.install(globals())
